@@ -48,3 +48,33 @@ def byte_inputs(canonical=None):
     if canonical is not None:
         srcs += [st.just(canonical), mutated(canonical), mutated(canonical), mutated(canonical)]
     return st.one_of(srcs)
+
+
+def spec_tokens(spec):
+    """byte strings a spec mentions (pads, terminators, constants, patterns): the dictionary for padded_tails()"""
+    out = []
+
+    def walk(x):
+        if isinstance(x, (bytes, bytearray)) and 1 <= len(x) <= 6:
+            if bytes(x) not in out:
+                out.append(bytes(x))
+        elif isinstance(x, (list, tuple)):
+            for e in x:
+                walk(e)
+    walk(spec)
+    return out
+
+
+@st.composite
+def padded_tails(draw, canonical, tokens):
+    """the canonical encoding (or a slightly shortened one) followed by a run of the spec's own pad/terminator strings, the last
+    of them possibly cut short from either side: whole units, a unit's prefix, a unit's suffix"""
+    data = canonical[:len(canonical) - draw(st.integers(0, min(2, len(canonical))))] if draw(st.integers(0, 3)) == 0 else canonical
+    tok = draw(st.sampled_from(tokens))
+    out = tok * draw(st.integers(0, 3))
+    if len(tok) > 1:
+        cut = draw(st.integers(1, len(tok) - 1))
+        out += draw(st.sampled_from([tok[:cut], tok[-cut:], b""]))
+    if draw(st.integers(0, 3)) == 0:
+        out = draw(st.binary(min_size=1, max_size=2)) + out
+    return data + out
